@@ -64,7 +64,7 @@ Definition sinplace (f : bytes -> bool * bytes) (b : option sbuf) (w : swlog) : 
        match sb_own x with SLocal => w | o => (o, snd r) :: w end)
   end.
 
-(* confidential.Zero, a package-level 32-byte slice that two branches return *)
+(* confidential.Zero, the package-level 32-byte slice; since fc52213 results are fresh zero32() slices, never Zero itself *)
 Definition szero_buf : sbuf := mk_sbuf SGlobal zero32.
 
 Inductive sres := SOk (r : option sbuf) | SErr.
@@ -90,7 +90,7 @@ Definition calc_offset_w (amount : N) (assetBlinder valueBlinder : option sbuf) 
             let vn := scopy valueBlinder in
             let '(ok, vn, w) := sinplace ec_negate vn w in
             if negb ok then (SErr, w) else
-            if sbuf_eqb vn result then (SOk (Some szero_buf), w) else
+            if sbuf_eqb vn result then (SOk (Some (mk_sbuf SLocal zero32)), w) else
             let '(ok, result, w) := sinplace (fun k => ec_tweak_add k (sdat vb)) result w in
             if negb ok then (SErr, w) else (SOk result, w)
         end
@@ -139,7 +139,7 @@ Definition add_offset_w (scalar : option sbuf) (value : N) (assetBlinder valueBl
               let nv := scopy scalarOffset in
               let '(ok, nv, w) := sinplace ec_negate nv w in
               if negb ok then (SErr, w) else
-              if sbuf_eqb s nv then (SOk (Some szero_buf), w) else
+              if sbuf_eqb s nv then (SOk (Some (mk_sbuf SLocal zero32)), w) else
               let '(ok, s, w) := sinplace (fun k => ec_tweak_add k (sdat scalarOffset)) s w in
               if negb ok then (SErr, w) else (SOk s, w)
           end
